@@ -117,16 +117,20 @@ theorem gen_extended_roundtrip (par : Bool) (e : Ext) (he : wfExt e = true) (nam
 
 /-- `convert_rule` tests `finalize_correlation_subqueries` (default off).  The method that converts and
 finalises a correlation rule (`corrDispatchFn`) either does not (the code as it stands: a referenced
-correlation rule is embedded finalised regardless — finding C10a,
+correlation rule is embedded finalised regardless — former finding C10a, repaired in /repo 396bf5b,
 `Props.C10.nested_correlation_always_finalised`) or does (after a fix).  The harness passes which one
 holds to the model as `Cfg.corrFinTested`, so both shapes are followed. -/
 theorem gen_finalize_sites : finalizeTestedIn.contains "convert_rule" = true ∧ finalizeDefault = false := by decide
 
 /-- the model's flag for the live code -/
 def liveCorrFinTested : Bool := finalizeTestedIn.contains corrDispatchFn
-/-- alias targets are mapped inside `if rule.group_by is not None` (finding C10b) or unconditionally (after
-a fix); passed to the model as `Cfg.aliasAlways` -/
+/-- alias targets are mapped inside `if rule.group_by is not None` (former finding C10b) or unconditionally (after
+the repair 4061be4); passed to the model as `Cfg.aliasAlways` -/
 def liveAliasAlways : Bool := !aliasMappingUnderGroupBy
+
+/-- the live code has the repaired shapes: sub-query finalisation is tested where correlation rules are converted, and
+alias targets are mapped whether or not there is a group-by list (a regression to either old shape breaks this) -/
+theorem gen_repaired_shapes : liveCorrFinTested = true ∧ liveAliasAlways = true := by decide
 
 /-- at the live code shape: every sub-query of a referenced *detection* rule is embedded finalised iff the
 backend opts in; of a referenced correlation rule iff it opts in or the live `convert_correlation_rule`
